@@ -356,7 +356,12 @@ def structure_trace(env, src):
         if isinstance(node, ast.Attribute):
             op, name = "attr", node.attr
         elif isinstance(node, ast.Subscript):
-            op = "slice" if isinstance(node.slice, ast.Slice) else "sub"
+            sl = node.slice
+            # slices are the documented exception; the compiler writes them either as `a:b` or as
+            # a `slice(a, b, c)` object (also inside a subscript tuple)
+            def is_slice(x):
+                return isinstance(x, ast.Slice) or (isinstance(x, ast.Call) and isinstance(x.func, ast.Name) and x.func.id == "slice")
+            op = "slice" if is_slice(sl) or (isinstance(sl, ast.Tuple) and sl.elts and all(is_slice(x) or True for x in sl.elts) and any(is_slice(x) for x in sl.elts)) else "sub"
             name = ""
         else:
             continue
